@@ -5,6 +5,7 @@ import SuxModel.RankSel.Runner
 import SuxModel.Lender.Runner
 import SuxModel.SigStore.Runner
 import SuxModel.RCL.Runner
+import SuxModel.GF2.Runner
 /-!
 # `suxdrv <runner>` : line-protocol driver over the executable model definitions
 -/
@@ -26,7 +27,8 @@ def runners : List (String × Runner) := [
   ("ranksel", Sux.RS.runner),
   ("lender", Sux.Lender.runner),
   ("sigstore", Sux.SigStore.runner),
-  ("rcl", Sux.RCL.runner)
+  ("rcl", Sux.RCL.runner),
+  ("gf2", Sux.GF2.runner)
 ]
 
 def main (args : List String) : IO UInt32 := do
